@@ -63,7 +63,8 @@ def gen_gspec(rng, levels, item_kind):
 def gen_items(rng, kind):
     n = rng.choice([0, 1, 2, 3, 5, 8])
     if kind == 'int':
-        return [rng.randint(0, 9) for _ in range(n)]
+        lo = rng.choice([0, 0, -4])
+        return [rng.randint(lo, 9) for _ in range(n)]
     if kind == 'list':
         return [{'t': 'list', 'v': [rng.randint(0, 9) for _ in range(rng.randint(0, 3))]} for _ in range(n)]
     return [{'t': 'dict', 'v': [['k', rng.randint(0, 2)]] + ([[rng.choice(['a', 'b']), rng.randint(0, 9)]] if rng.random() < 0.7 else [])}
